@@ -466,6 +466,19 @@ def run(world, rep, tier, only=None):
             rep.ob("C10.o", site(dxl, "lookup hash and kept version are the same value#%d.%d" % (i, j)), not between,
                    "stores to %s between `%s` and the hash call: %s" % (v, k.text()[:30], [(n.line, n.text()[:20]) for n in between]))
 
+    # ------------------------------------------------------------------ C10.p an inline directory gives up its inline copy only when a block can be had
+    # ext2fs_inline_data_expand() clears i_block and removes system.data, then builds the block form - which needs a
+    # block.  Nothing puts the inline copy back when that fails: on a full file system the directory lost every name.
+    # The destructive steps lie behind a successful probe of the allocator.
+    ide = dbg.fn("ext2fs_inline_data_expand", "lib/ext2fs/inline_data.c")
+    destroy = calls_to(ide, "ext2fs_inline_data_ea_remove")
+    probe = calls_to(ide, "ext2fs_new_block2", "ext2fs_new_block3", "ext2fs_alloc_block2", "ext2fs_alloc_block3") + \
+        [n for n in ide.events("S") if any(cc.get("fn") in ("ext2fs_new_block2", "ext2fs_new_block3") for cc in T.calls(n.ev.get("rhs") or {}))]
+    rep.floor("C10.p removal of the inline attribute in ext2fs_inline_data_expand", len(destroy), 1)
+    for i, n in enumerate(destroy):
+        rep.ob("C10.p", site(ide, "inline copy given up only after a block was found#%d" % i), bool(probe) and ide.dominated_by(n, probe),
+               "a call of the block allocator dominates ext2fs_inline_data_ea_remove()")
+
     # ------------------------------------------------------------------ C10.l a name that does not fit a directory entry is refused
     # name_len is one byte: ext2fs_link() must compare the length with EXT2_NAME_LEN before either the linear or the
     # htree insertion runs, or a 300-byte name is stored as the 44-byte name its length modulo 256 gives
